@@ -288,6 +288,7 @@ class Resolver:
             for k in dk:
                 if k[0] == "class":
                     new.add(("inst", k[1]))
+                    new |= kinds          # the wrapper instance forwards to the function it wraps
                 elif k[0] == "ext":
                     # external decorator: assume it wraps (functools.wraps etc.)
                     new |= kinds
